@@ -328,18 +328,18 @@ package datastore
 //@   let enc = req.GetEncoding()
 //@   let intendedState = req.GetDatastore().GetType() == sdcpb.Type_INTENDED && req.GetDataType() == sdcpb.DataType_STATE
 //@   let npaths = len(req.GetPath())
-//@   ensures intended_state_is_refused: intendedState ==> r0 != nil && noReader()
-//@   ensures unknown_encoding_is_refused: !knownEncoding(enc) ==> r0 != nil && noReader()
+//@   internal intended_state_is_refused: intendedState ==> r0 != nil && noReader()
+//@   internal unknown_encoding_is_refused: !knownEncoding(enc) ==> r0 != nil && noReader()
 //@   loop 0 invariant every_path_so_far_is_valid [C14]: err == nil
-//@   ensures invalid_path_is_refused: called(validatePath) && callres(validatePath) != nil ==> r0 != nil && noReader()
-//@   ensures string_reader: called(handleGetDataUpdatesSTRING) ==> enc == sdcpb.Encoding_STRING && !called(handleGetDataUpdatesJSON) && !called(handleGetDataUpdatesPROTO)
-//@   ensures proto_reader: called(handleGetDataUpdatesPROTO) ==> enc == sdcpb.Encoding_PROTO && !called(handleGetDataUpdatesJSON) && !called(handleGetDataUpdatesSTRING)
-//@   ensures json_reader: called(handleGetDataUpdatesJSON) ==> (enc == sdcpb.Encoding_JSON || enc == sdcpb.Encoding_JSON_IETF) && !called(handleGetDataUpdatesSTRING) && !called(handleGetDataUpdatesPROTO)
-//@   ensures json_flavour_first_site: called(handleGetDataUpdatesJSON, 0) ==> callarg(handleGetDataUpdatesJSON, 0, 6) == (enc == sdcpb.Encoding_JSON_IETF)
-//@   ensures json_flavour_second_site: called(handleGetDataUpdatesJSON, 1) ==> callarg(handleGetDataUpdatesJSON, 1, 6) == (enc == sdcpb.Encoding_JSON_IETF)
+//@   internal invalid_path_is_refused: called(validatePath) && callres(validatePath) != nil ==> r0 != nil && noReader()
+//@   internal string_reader: called(handleGetDataUpdatesSTRING) ==> enc == sdcpb.Encoding_STRING && !called(handleGetDataUpdatesJSON) && !called(handleGetDataUpdatesPROTO)
+//@   internal proto_reader: called(handleGetDataUpdatesPROTO) ==> enc == sdcpb.Encoding_PROTO && !called(handleGetDataUpdatesJSON) && !called(handleGetDataUpdatesSTRING)
+//@   internal json_reader: called(handleGetDataUpdatesJSON) ==> (enc == sdcpb.Encoding_JSON || enc == sdcpb.Encoding_JSON_IETF) && !called(handleGetDataUpdatesSTRING) && !called(handleGetDataUpdatesPROTO)
+//@   internal json_flavour_first_site: called(handleGetDataUpdatesJSON, 0) ==> callarg(handleGetDataUpdatesJSON, 0, 6) == (enc == sdcpb.Encoding_JSON_IETF)
+//@   internal json_flavour_second_site: called(handleGetDataUpdatesJSON, 1) ==> callarg(handleGetDataUpdatesJSON, 1, 6) == (enc == sdcpb.Encoding_JSON_IETF)
 //@   loop 1 invariant every_requested_path_is_read [C14]: len(paths) == $n && forall(j, 0, $n, paths[j] == utils.ToStrings(req.GetPath()[j], false, false))
-//@   ensures reader_error_is_returned: called(handleGetDataUpdatesSTRING) ==> r0 == callres(handleGetDataUpdatesSTRING)
-//@   ensures a_valid_request_is_read: knownEncoding(enc) && !intendedState && npaths == 0 ==>
+//@   internal reader_error_is_returned: called(handleGetDataUpdatesSTRING) ==> r0 == callres(handleGetDataUpdatesSTRING)
+//@   internal a_valid_request_is_read: knownEncoding(enc) && !intendedState && npaths == 0 ==>
 //@            called(handleGetDataUpdatesSTRING) || called(handleGetDataUpdatesJSON) || called(handleGetDataUpdatesPROTO)
 
 // ---------------------------------------------------------------------------
